@@ -597,7 +597,7 @@ def localise(exe, job, cm, d):
         rc, err = run_driver(exe, av)
         if rc not in (0, 3):
             return None, None, None
-        return compare_job((rec, pin[:-3] + ".exp", build == "dbg")), rec, pin
+        return compare_job((rec, pin[:-3] + ".exp", build.startswith("dbg"))), rec, pin
 
     # which behaviour leaves the registry wrong?  (probe at the end of every behaviour)
     c1, _, _ = rerun("A", upto, False)
@@ -615,7 +615,7 @@ def localise(exe, job, cm, d):
     m = c2["mismatch"]
     seq = m["behaviour_so_far"]
     desc = "%s build, %s: after the call sequence %s : %s (PtrTrace rejects the recording at line %d)" % (
-        "assertion" if build == "dbg" else "NDEBUG", label, json.dumps(seq[-12:]), m["why"], v["line"])
+        ("assertion (%s)" % build) if build.startswith("dbg") else "NDEBUG", label, json.dumps(seq[-12:]), m["why"], v["line"])
     return desc, {"minimal_behaviour_input": keep(pin), "minimal_recording": keep(rec), "call_sequence": seq,
                   "rejected_event": v["event"], "line": v["line"], "why": m["why"], "predicted": m["predicted"]}
 
@@ -650,10 +650,13 @@ def run(prop, tier, seed):
             cf.ThreadPoolExecutor(max_workers=4) as tpool:
         gf = [pool.submit(graph_job, (g, tier, seed, d)) for g in tcfg["graphs"]]
         sf = pool.submit(sim_job, (tier, seed, d))
-        bf = tpool.submit(vlib.build_many, [dict(name="ptr_driver", harness_srcs=["ptr_driver.cpp"], config=c)
-                                            for c in ("dbg", "ndebug")])
+        # element types of the wrapped buffers: std::byte (what the library instantiates), uint32_t and a 24-byte
+        # record (the property speaks of "the raw pointer it wraps" / "the span it was built from" for any T)
+        BUILDS = [("dbg", "dbg", 0), ("ndebug", "ndebug", 0), ("dbg_u32", "dbg", 1), ("dbg_rec24", "dbg", 2)]
+        bf = tpool.submit(vlib.build_many, [dict(name="ptr_driver_e%d" % e, harness_srcs=["ptr_driver.cpp"], config=c,
+                                                 hflags=["-DPTR_ELEM=%d" % e]) for (_, c, e) in BUILDS])
         qf = [tpool.submit(quiet_job, c) for c in tcfg["quiet"]]
-        exe = dict(zip(("dbg", "ndebug"), bf.result()))
+        exe = dict(zip([b[0] for b in BUILDS], bf.result()))
         graphs = [f.result() for f in gf]
         sim = sf.result()
         tA = time.time()
@@ -664,7 +667,7 @@ def run(prop, tier, seed):
         for g in graphs + [sim]:
             for p in g["parts"]:
                 NW, NS, NB, N = p["shape"]
-                for b in ("dbg", "ndebug"):
+                for b in ("dbg", "ndebug", "dbg_rec24"):
                     out = "%s.%s.ndjson" % (p["base"], b)
                     argv = ["--replay", p["base"] + ".in", "--out", out, "--nw", str(NW), "--ns", str(NS),
                             "--nb", str(NB), "--n", str(N)]
@@ -673,11 +676,11 @@ def run(prop, tier, seed):
                     jobs.append(("replay", g["name"], b, argv, out, p["base"] + ".exp"))
         for k in range(tcfg["random_runs"]):
             NW, NS, NB, N = RANDOM_SHAPES[k % len(RANDOM_SHAPES)]
-            b = "dbg" if k % 4 != 3 else "ndebug"
+            b = ("dbg", "dbg_u32", "dbg_rec24", "ndebug")[k % 4]
             s = seed * 100003 + k
             out = os.path.join(d, "random_%d_%s.ndjson" % (s, b))
             argv = ["--random", "--seed", str(s), "--seqs", str(tcfg["random_seqs"]), "--ops", str(tcfg["random_ops"]),
-                    "--probe-pct", str(tcfg["random_probe_pct"] if b == "dbg" else max(3, tcfg["random_probe_pct"] // 6)),
+                    "--probe-pct", str(tcfg["random_probe_pct"] if b.startswith("dbg") else max(3, tcfg["random_probe_pct"] // 6)),
                     "--out", out, "--nw", str(NW), "--ns", str(NS), "--nb", str(NB), "--n", str(N)]
             if k % 3 == 1:
                 argv.append("--foreign")      # a second QSBR thread holds a wrapper of its own
@@ -699,7 +702,7 @@ def run(prop, tier, seed):
         with cf.ProcessPoolExecutor(max_workers=nproc, mp_context=mp) as cpool, \
                 cf.ThreadPoolExecutor(max_workers=max(4, nproc - 6)) as vpool:
             have = [os.path.exists(j[4]) and os.path.getsize(j[4]) > 0 for j in jobs]
-            cfs = [cpool.submit(compare_job, (j[4], j[5], j[2] == "dbg")) if j[0] == "replay" and h else None
+            cfs = [cpool.submit(compare_job, (j[4], j[5], j[2].startswith("dbg"))) if j[0] == "replay" and h else None
                    for j, h in zip(jobs, have)]
             vfs = [vpool.submit(validate_job, j[4]) if h and wants_tv(i, j) else None
                    for i, (j, h) in enumerate(zip(jobs, have))]
@@ -722,7 +725,7 @@ def run(prop, tier, seed):
     traces_ok = 0
     replays_ok = 0
     nviol = 0
-    probes_by_build = {"dbg": 0, "ndebug": 0}
+    probes_by_build = {"dbg": 0, "ndebug": 0, "dbg_u32": 0, "dbg_rec24": 0}
     for job, (rc, err), c, v in zip(jobs, drv_res, cmp_res, val_res):
         kind, label, build, argv, out, expf = job
         cmdline = " ".join([exe[build]] + argv)
@@ -772,7 +775,7 @@ def run(prop, tier, seed):
         kept = keep(out)
         kin = keep(argv[1]) if kind == "replay" else None
         desc = "%s build, %s %s: %s at line %d: %s" % (
-            "assertion" if build == "dbg" else "NDEBUG", kind, label, what, v["line"], json.dumps(v["event"])[:500])
+("assertion (%s)" % build) if build.startswith("dbg") else "NDEBUG", kind, label, what, v["line"], json.dumps(v["event"])[:500])
         if cm is not None:
             desc += " | replay comparison: " + cm["why"]
         loc = None
@@ -817,7 +820,8 @@ def run(prop, tier, seed):
         "random_recordings": sum(1 for j in jobs if j[0] == "random"),
         "random_recordings_with_foreign_thread": sum(1 for j in jobs if j[1] == "random+foreign"),
         "trace_events_per_action_validated_by_TLC": tv_cov,
-        "builds": ["dbg (assertions)", "ndebug"],
+        "builds": ["dbg (assertions, std::byte elements)", "ndebug (std::byte)", "dbg_u32 (assertions, uint32_t elements)",
+                   "dbg_rec24 (assertions, 24-byte record elements)"],
         "phase_wall_s": {"tlc_cover_build": round(tA - t0, 1), "drivers": round(tB - tA, 1), "compare_validate": round(tC - tB, 1)},
     }
     vlib.write_evidence(prop, tier, seed, "model_checking", coverage,
